@@ -9,6 +9,7 @@
 #include <sys/syscall.h>
 #include <unistd.h>
 
+#include <signal.h>
 #include "rt.h"
 
 namespace rksim {
@@ -109,6 +110,16 @@ static void *trampoline(void *p)
   Thread *t = (Thread *)p;
   tl_self = t;
   tl_rt_depth = 0;
+  {
+    // an alternate signal stack per simulated thread: a stack overflow in the code under test is then reported by the crash
+    // handler (violation 'crash:signal-11' with the decisions so far) instead of killing the child without a word
+    static char altstacks[MAX_THREADS][65536];
+    stack_t ss;
+    ss.ss_sp = altstacks[t->id % MAX_THREADS];
+    ss.ss_size = sizeof altstacks[0];
+    ss.ss_flags = 0;
+    sigaltstack(&ss, nullptr);
+  }
   park(t);
   // registered first => destroyed last: thread_local destructors of the code under test still
   // run as part of the simulated thread (holding the baton)
